@@ -219,6 +219,18 @@ func (n *Native) Do(req NativeReq, timeout time.Duration) (resp NativeResp, time
 	}
 }
 
+// DoPatient is Do with one retry: a request that is not answered within the
+// timeout is sent again (to the restarted process) with six times the
+// timeout, so that a machine under heavy load is not mistaken for a hang. A
+// real hang is still reported, after both timeouts.
+func (n *Native) DoPatient(req NativeReq, timeout time.Duration) (NativeResp, bool, error) {
+	resp, timedOut, err := n.Do(req, timeout)
+	if timedOut && err == nil {
+		return n.Do(req, 6*timeout)
+	}
+	return resp, timedOut, err
+}
+
 // Fresh restarts the helper process, so that the next request is answered by
 // a process that has not compiled anything yet.
 func (n *Native) Fresh() {
@@ -462,13 +474,13 @@ func (w *Worker) nativeCompile(src string, o CompileOpts, values map[int]string)
 			req.Switches[conc(o.SwKeys[i])] = conc(o.SwVals[i])
 		}
 	}
-	resp, timedOut, err := w.N.Do(req, 10*time.Second)
+	resp, timedOut, err := w.N.DoPatient(req, 10*time.Second)
 	if err != nil {
 		return nil, err
 	}
 	cr := &CompileResult{Out: resp.Out}
 	if timedOut {
-		cr.Err.Panic = "timeout (no answer within 10s)"
+		cr.Err.Panic = "timeout (no answer within 10 s, nor within 60 s when asked again)"
 		return cr, nil
 	}
 	if resp.Panic != "" {
@@ -640,7 +652,11 @@ func (w *Worker) crossCheck(cs *Case, x *OracleCtx, rep *Report, srcOf map[*Prog
 			}
 		}
 		if differs(nres) {
-			rep.engineMismatch(fmt.Sprintf("case %s variant %s: engine and native build disagree\nsource:\n%s\nengine: %q err=%q\nnative: %q err=%q panic=%q", cs.Name, v.Name, src, eout, emsg, strOf(nres.Out), strOf(nres.Err.Msg), nres.Err.Panic))
+			dbg := ""
+			if os.Getenv("VERIF_DEBUG_MISMATCH") != "" {
+				dbg = fmt.Sprintf("\nrope: %s\nmodel: %v\nvalues: %v\nsrc-with-holes:\n%s", interp.ToString(eres.Out), model, values, srcOf[p])
+			}
+			rep.engineMismatch(fmt.Sprintf("case %s variant %s: engine and native build disagree\nsource:\n%s\nengine: %q err=%q\nnative: %q err=%q panic=%q%s", cs.Name, v.Name, src, eout, emsg, strOf(nres.Out), strOf(nres.Err.Msg), nres.Err.Panic, dbg))
 			return
 		}
 	}
